@@ -269,6 +269,7 @@ type c10Gen struct {
 	accts []sdk.AccAddress // 0,1: owners; 1,2: editors of 0's folders; 3: viewer; 4: stranger
 	prev  string           // account that most recently gave an entry away
 	n     int
+	kids  map[string][2]string // full address of a posted entry -> (parent address, child hash) it was posted with
 }
 
 var c10OddStrings = []string{"a", "b", "x/y", "/", "é", "日本", " ", "q\"uote", "back\\slash", "<tag>&", "line\nfeed", "tab\t", "\x01", "\x7f", "\b\f", "\u2028", "\u2029x", "ab", "a\x00"}
@@ -533,6 +534,33 @@ func (g *c10Gen) next(store []c10Entry) c10Op {
 	switch x := p.Intn(100); {
 	case x < 26: // post under f
 		tn := g.tracking()
+		// re-post OVER the existing entry f by one of f's own editors who is not an editor of f's folder:
+		// being an editor of an entry gives no right to replace it (only the folder's editors may post)
+		if pc, ok := g.kids[f.Address]; ok && p.Chance(1, 2) {
+			var parent *fttypes.Files
+			for i := range store {
+				if store[i].F.Address == pc[0] {
+					parent = &store[i].F
+				}
+			}
+			if parent != nil {
+				folderEd := map[int]bool{}
+				for _, i := range g.editorsOf(*parent) {
+					folderEd[i] = true
+				}
+				var only []int
+				for _, i := range g.editorsOf(f) {
+					if !folderEd[i] {
+						only = append(only, i)
+					}
+				}
+				if len(only) > 0 {
+					ci := PickOne(p, only)
+					return c10Op{Kind: "post", Creator: g.accts[ci].String(), Account: acct, HashParent: pc[0], HashChild: pc[1], Contents: fmt.Sprintf("over%d", g.n),
+						Viewers: g.aclString("view", tn, ci), Editors: g.aclString("edit", tn, ci), Tracking: tn, Shape: "entry-editor-not-folder-editor"}
+				}
+			}
+		}
 		var cr, role string
 		eds := g.editorsOf(f)
 		crossed := g.crossedOf(f)
@@ -558,6 +586,10 @@ func (g *c10Gen) next(store []c10Entry) c10Op {
 		} else if p.Chance(1, 12) {
 			op.HashChild, op.Shape = PickOne(p, []string{"", "x", "/", f.Address}), "odd-child"
 		}
+		if g.kids == nil {
+			g.kids = map[string][2]string{}
+		}
+		g.kids[fttypes.AddToMerkle(op.HashParent, op.HashChild)] = [2]string{op.HashParent, op.HashChild}
 		return op
 	case x < 38: // delete f
 		cr, role := g.signer(f)
